@@ -24,11 +24,8 @@ theorem enrich_cons (r : Req) (k : Str) (vs : List Str) (rest : Hdr) :
   cases hget r.header (canon k) with
   | some x => rfl
   | none =>
-    by_cases hk : canon k = [72, 111, 115, 116]
-    · by_cases hh : r.host = []
-      · cases vs <;> simp [hk, hh]
-      · simp [hk, hh]
-    · simp [hk]
+    -- every guard decided, then computation: the proof does not depend on how the guards are nested or negated
+    by_cases hk : canon k = [72, 111, 115, 116] <;> by_cases hh : r.host = [] <;> cases vs <;> simp [hk, hh]
 
 theorem enrich_nil (r : Req) : enrich r [] = some r := rfl
 
@@ -62,7 +59,8 @@ theorem uriMergeStep_eq (h : Hdr) (k : Str) (vv : List Str) :
   cases hget h (canon k) <;> rfl
 
 theorem uripostMergeStep_eq (h : Hdr) (k : Str) (vv : List Str) :
-    Gen.HttpWire.uripostMergeStep h k vv = Gen.HttpWire.uriMergeStep h k vv := rfl
+    Gen.HttpWire.uripostMergeStep h k vv = Gen.HttpWire.uriMergeStep h k vv := by
+  (simp only [Gen.HttpWire.uripostMergeStep, Gen.HttpWire.uriMergeStep]) <;> (cases hget h (canon k) <;> rfl)
 
 theorem mergeUri_eq (common conf : Hdr) :
     mergeUri common conf = conf.foldl (fun h kv => (Gen.HttpWire.uriMergeStep h kv.1 kv.2).getD h) common := by
